@@ -101,3 +101,13 @@ Definition check_lex (c : bytes * list (N * bytes * nat)) : bool :=
   | Some ts => toks_eqb (trim_eofs ts) (snd c)
   | None => false
   end.
+
+(* ---- parser ---- *)
+From Plush Require Import model.Ast model.Parser model.Dump.
+Inductive parse_obs := POk (dump : bytes) | PErr (lines : list nat).
+Definition check_parse (c : bytes * parse_obs) : bool :=
+  match parse (fst c), snd c with
+  | ParseOk prog, POk d => beq (dprog prog) d
+  | ParseErr ls, PErr ls' => list_eqb Nat.eqb ls ls'
+  | _, _ => false
+  end.
